@@ -110,6 +110,8 @@ func writeEvidence(p *propDef, tier string, master uint64, recs []*runRec, enume
 		"components":                          p.components,
 		"build_s":                             buildS,
 		"workers":                             workers(),
+		"determinism_checked_pairs":           detPairs,
+		"determinism_diverged":                detDiverged,
 	}
 	if p.extra != nil {
 		p.extra(cov, recs)
